@@ -30,9 +30,36 @@ static std::vector<std::pair<size_t, size_t> > fields(const std::string &s) {   
 		if (i == s.size() || strchr(DELIMS, s[i])) { f.push_back(std::make_pair(st, i - st)); st = i + 1; }
 	return f;
 }
+// one OpenPGP packet of the given kind (for the packet-sequence cases)
+static std::string pgp_packet(const std::string &kind) {
+	typedef CallasDonnerhackeFinneyShawThayerRFC4880 R;
+	tmcg_openpgp_octets_t o;
+	gcry_mpi_t n = gcry_mpi_new(1024), e = gcry_mpi_set_ui(NULL, 65537), s = gcry_mpi_new(1024);
+	gcry_mpi_set_bit(n, 1023); gcry_mpi_set_bit(n, 0); gcry_mpi_set_bit(s, 1000); gcry_mpi_set_bit(s, 3);
+	auto rawkey = [&](tmcg_openpgp_byte_t tag, tmcg_openpgp_byte_t algo) {      // V4 key packet with an algorithm the library does not know
+		tmcg_openpgp_octets_t body; body.push_back(4); body.push_back(0x59); body.push_back(0x68); body.push_back(0x2F); body.push_back(0x00); body.push_back(algo);
+		R::PacketMPIEncode(n, body); R::PacketMPIEncode(e, body);
+		R::PacketTagEncode(tag, o); R::PacketLengthEncode(body.size(), o); o.insert(o.end(), body.begin(), body.end());
+	};
+	if (kind == "pub") R::PacketPubEncode(1500000000, TMCG_OPENPGP_PKALGO_RSA, n, e, e, e, o);
+	else if (kind == "sub") R::PacketSubEncode(1500000000, TMCG_OPENPGP_PKALGO_RSA, n, e, e, e, o);
+	else if (kind == "uid") R::PacketUidEncode("Alice <alice@example.org>", o);
+	else if (kind == "sig" || kind == "subsig") {
+		tmcg_openpgp_octets_t hashed, left, flags, issuer; flags.push_back(0x03); for (int i = 0; i < 8; i++) issuer.push_back((tmcg_openpgp_byte_t)(0x10 + i));
+		if (kind == "sig") R::PacketSigPrepareSelfSignature(TMCG_OPENPGP_SIGNATURE_POSITIVE_CERTIFICATION, TMCG_OPENPGP_PKALGO_RSA, TMCG_OPENPGP_HASHALGO_SHA256, 1500000000, 1000, flags, issuer, false, hashed);
+		else R::PacketSigPrepareSelfSignature(TMCG_OPENPGP_SIGNATURE_SUBKEY_BINDING, TMCG_OPENPGP_PKALGO_RSA, TMCG_OPENPGP_HASHALGO_SHA256, 1500000000, 1000, flags, issuer, false, hashed);
+		left.push_back(0xAB); left.push_back(0xCD); R::PacketSigEncode(hashed, left, s, o);
+	}
+	else if (kind == "subx") rawkey(14, 100);
+	else if (kind == "pubx") rawkey(6, 100);
+	else { tmcg_openpgp_octets_t body; body.push_back('P'); body.push_back('G'); body.push_back('P'); R::PacketTagEncode(10, o); R::PacketLengthEncode(body.size(), o); o.insert(o.end(), body.begin(), body.end()); }   // marker
+	gcry_mpi_release(n); gcry_mpi_release(e); gcry_mpi_release(s);
+	return std::string(o.begin(), o.end());
+}
 static std::string apply(const Sample &sm, const json &c, bool &ok) {
 	std::string s = sm.text; ok = true;
 	std::string op = c["op"]; size_t k = c.value("k", 0);
+	if (op == "PktSeq") { s.clear(); for (size_t x = 0; x < c["v"].size(); x++) s += pgp_packet(c["v"][x].get<std::string>()); return s; }
 	if (op == "TruncChar") { if (k > s.size()) ok = false; else s = s.substr(0, k); return s; }
 	if (op == "FlipByte") { if (k >= s.size()) ok = false; else s[k] = (char)(s[k] ^ (int)c.value("v", 1)); return s; }
 	if (op == "SetBytes" || op == "InsBytes") {
@@ -80,7 +107,7 @@ static void build_samples() {
 	  std::ostringstream kp; vt->KeyGenerationProtocol_PublishKey(kp); samples.push_back({"keyproof", kp.str(), false});
 	}
 	// QR-encoded cards with a real (small) key
-	the_key = new TMCG_SecretKey("Alice", "alice@example.org", 1024, false);
+	the_key = new TMCG_SecretKey("Alice", "alice@example.org", 704, false);
 	{ TMCG_PublicKey pk(*the_key); TMCG_PublicKeyRing ring(2); ring.keys[0] = pk; ring.keys[1] = pk;
 	  TMCG_Card c(2, 3); TMCG_CardSecret cs(2, 3); tm.TMCG_CreatePrivateCard(c, cs, ring, 0, 5);
 	  std::ostringstream a, b; a << c; b << cs; samples.push_back({"qcard", a.str(), false}); samples.push_back({"qcsec", b.str(), false});
@@ -176,12 +203,12 @@ static int consume(const std::string &type, const std::string &s) {
 	if (type == "g_eotp") { NaorPinkasEOTP v(in, 12, 11); return v.CheckGroup(); }
 	if (type.compare(0, 4, "pgp_") == 0) {
 		tmcg_openpgp_octets_t oct(s.begin(), s.end());
-		if (type == "pgp_keyblock_armor") { TMCG_OpenPGP_Pubkey *pub = NULL; bool r = PGP::PublicKeyBlockParse(s, 0, pub); if (pub) delete pub; return r; }
-		if (type == "pgp_keyblock") { TMCG_OpenPGP_Pubkey *pub = NULL; bool r = PGP::PublicKeyBlockParse(oct, 0, pub); if (pub) delete pub; return r; }
-		if (type == "pgp_sig_armor") { TMCG_OpenPGP_Signature *sig = NULL; bool r = PGP::SignatureParse(s, 0, sig); if (sig) delete sig; return r; }
-		if (type == "pgp_sig") { TMCG_OpenPGP_Signature *sig = NULL; bool r = PGP::SignatureParse(oct, 0, sig); if (sig) delete sig; return r; }
-		if (type == "pgp_msg_armor") { TMCG_OpenPGP_Message *m = NULL; bool r = PGP::MessageParse(s, 0, m); if (m) delete m; return r; }
-		if (type == "pgp_msg" || type == "pgp_seipd") { TMCG_OpenPGP_Message *m = NULL; bool r = PGP::MessageParse(oct, 0, m); if (m) delete m; return r; }
+		if (type == "pgp_keyblock_armor") { TMCG_OpenPGP_Pubkey *pub = NULL; bool r = PGP::PublicKeyBlockParse(s, 0, pub); if (r && pub) delete pub; return r; }
+		if (type == "pgp_keyblock") { TMCG_OpenPGP_Pubkey *pub = NULL; bool r = PGP::PublicKeyBlockParse(oct, 0, pub); if (r && pub) delete pub; return r; }
+		if (type == "pgp_sig_armor") { TMCG_OpenPGP_Signature *sig = NULL; bool r = PGP::SignatureParse(s, 0, sig); if (r && sig) delete sig; return r; }
+		if (type == "pgp_sig") { TMCG_OpenPGP_Signature *sig = NULL; bool r = PGP::SignatureParse(oct, 0, sig); if (r && sig) delete sig; return r; }
+		if (type == "pgp_msg_armor") { TMCG_OpenPGP_Message *m = NULL; bool r = PGP::MessageParse(s, 0, m); if (r && m) delete m; return r; }
+		if (type == "pgp_msg" || type == "pgp_seipd") { TMCG_OpenPGP_Message *m = NULL; bool r = PGP::MessageParse(oct, 0, m); if (r && m) delete m; return r; }
 	}
 	return 0;
 }
